@@ -203,8 +203,8 @@ package pointindex
 //@ macro half(p) = p.intCentroid[0] - p.intExtent[0]
 //@ macro wfParent(p) = half(p) > 0 && p.intCentroid[1] - p.intExtent[1] == half(p)
 //@     && p.intExtent[2] - p.intExtent[0] == 2 * half(p) && p.intExtent[3] - p.intExtent[1] == 2 * half(p) && extentOK(p.intExtent)
-//@ macro childExt(p, dx, dy) = arr(p.intExtent[0] + dx * half(p), p.intExtent[1] + dy * half(p),
-//@     p.intExtent[0] + dx * half(p) + half(p), p.intExtent[1] + dy * half(p) + half(p))
+//@ macro childExt(p, dx, dy) = arr(p.intExtent[0] + ite(dx == 1, half(p), 0), p.intExtent[1] + ite(dy == 1, half(p), 0),
+//@     p.intExtent[0] + ite(dx == 1, half(p), 0) + half(p), p.intExtent[1] + ite(dy == 1, half(p), 0) + half(p))
 //@ macro childOK(qs, p, q, dx, dy) = hasKey(qs, q) ==> qs[q].intExtent == childExt(p, dx, dy)
 //@ macro in4(s, q) = (len(s) > 0 && s[0] == q) || (len(s) > 1 && s[1] == q) || (len(s) > 2 && s[2] == q) || (len(s) > 3 && s[3] == q)
 //@ func findIntersectingQuadrants
@@ -307,3 +307,54 @@ package pointindex
 //@   use children_arith(even_bits(parentZ), even_bits(parentZ >> 1), 0, 0) && children_arith(even_bits(parentZ), even_bits(parentZ >> 1), 1, 0)
 //@   use children_arith(even_bits(parentZ), even_bits(parentZ >> 1), 0, 1) && children_arith(even_bits(parentZ), even_bits(parentZ >> 1), 1, 1)
 //@   ensures[C02,C17] result[0] == 4 * parentZ && result[1] == 4 * parentZ + 1 && result[2] == 4 * parentZ + 2 && result[3] == 4 * parentZ + 3
+
+// ---------------------------------------------------------------------------------------------
+// C02 / C03 / C08: the level-by-level descent. indexInv is the representation invariant of the quadtree:
+// every stored pixel carries its own key and extent; for level >= 1 its parent (key / 4) is stored, is a well-formed
+// parent and the pixel's extent is the corresponding quarter of the parent's; the root is stored and is ix.Quadrant.
+//@ macro storedQ(ix, l, z) = hasKey(ix.quadrants, l) && hasKey(mget(ix.quadrants, l), z)
+//@ macro quadOf(ix, l, z) = mget(mget(ix.quadrants, l), z)
+//@ macro indexInv(ix) = ix.deepestLevel <= 32 && !isNil(ix.quadrants)
+//@     && storedQ(ix, 0, 0) && quadOf(ix, 0, 0) == ix.Quadrant && extentOK(ix.intExtent)
+//@     && forall(l Int, z Int, 0 <= l && l <= ix.deepestLevel && storedQ(ix, l, z) ==>
+//@            quadOf(ix, l, z).z == z && extentOK(quadOf(ix, l, z).intExtent) && (l <= 31 ==> z <= 0x3FFFFFFFFFFFFFFF) && (l == 0 ==> z == 0)
+//@            && (l < ix.deepestLevel ==> wfParent(quadOf(ix, l, z))), trigger(quadOf(ix, l, z)))
+//@     && forall(l Int, z Int, 1 <= l && l <= ix.deepestLevel && storedQ(ix, l, z) ==>
+//@            storedQ(ix, l - 1, z / 4) && wfParent(quadOf(ix, l - 1, z / 4))
+//@            && quadOf(ix, l, z).intExtent == childExt(quadOf(ix, l - 1, z / 4), z % 2, (z / 2) % 2), trigger(quadOf(ix, l, z)))
+// a list of pixels of level l: each element is the stored pixel of its key, and is met by the line
+//@ macro listSound(ix, line, l, s) = forall(i, 0, len(s), storedQ(ix, l, s[i].z) && s[i] == quadOf(ix, l, s[i].z) && meets(line, s[i].intExtent))
+// ... and every stored pixel of level l met by the line is in the list (through its ghost set view)
+//@ macro listComplete(ix, line, l, set) = forall(z Int, storedQ(ix, l, z) && meets(line, quadOf(ix, l, z).intExtent) ==> set[z], trigger(quadOf(ix, l, z)))
+//@ macro viewOK(s, set, pos) = forall(z Int, set[z] ==> 0 <= pos[z] && pos[z] < len(s) && s[pos[z]].z == z, trigger(set[z]))
+
+// child inside parent: an edge that meets a quarter of a well-formed parent meets the parent
+//@ lemma G_sub(l A2_A2_M, p A4_M, c A4_M)
+//@   mode real
+//@   prelude geom
+//@   requires p[0] <= c[0] && c[2] <= p[2] && p[1] <= c[1] && c[3] <= p[3]
+//@   use meets_def1(l, c)
+//@   use meets_def2(l, p, meetsT(l, c))
+//@   ensures meets(l, c) ==> meets(l, p)
+
+//@ func (*PointIndex).snapClosestPoints
+//@   mode real
+//@   prelude geom arith
+//@   requires indexInv(ix) && lineOK(intLine)
+//@   ghostview parents by z
+//@   ghostview quadrantsIntersected by z
+//@   loop level
+//@     invariant 1 <= level && level <= ix.deepestLevel + 1
+//@     invariant listSound(ix, intLine, level - 1, parents) && viewOK(parents, set_parents, pos_parents)
+//@     invariant listComplete(ix, intLine, level - 1, set_parents)
+//@     invariant !isNil(quadrantsIntersectedPerLevel)
+//@     invariant forall(l Int, 0 <= l && l < level && hasKey(levelMap, l) ==> hasKey(quadrantsIntersectedPerLevel, l) && listSound(ix, intLine, l, quadrantsIntersectedPerLevel[l]))
+//@     invariant forall(l Int, hasKey(quadrantsIntersectedPerLevel, l) ==> hasKey(levelMap, l) && 0 <= l && l < level)
+//@     decreases ix.deepestLevel + 1 - level
+//@   loop parent as k
+//@     invariant 0 - 1 <= k && k < len(parents)
+//@     invariant listSound(ix, intLine, level, quadrantsIntersected) && viewOK(quadrantsIntersected, set_quadrantsIntersected, pos_quadrantsIntersected)
+//@     invariant forall(z Int, storedQ(ix, level, z) && meets(intLine, quadOf(ix, level, z).intExtent) && set_parents[z / 4] && pos_parents[z / 4] <= k ==> set_quadrantsIntersected[z], trigger(quadOf(ix, level, z)))
+//@     decreases len(parents) - k
+//@   ensures[C02,C03,C08] result == nil || forall(l Int, hasKey(result, l) ==> hasKey(levelMap, l) && l <= ix.deepestLevel && listSound(ix, intLine, l, result[l]))
+//@   ensures[C02,C03,C08] meets(intLine, ix.intExtent) && len(levelMap) > 0 ==> forall(l Int, 0 <= l && l <= ix.deepestLevel && hasKey(levelMap, l) ==> hasKey(result, l))
